@@ -47,7 +47,7 @@ static int tx_equal(const tx_t* a, const tx_t* b, char* la, char* lb, size_t cap
     while (*p || *q) { const char* ep = strchr(p, '\n'); const char* eq = strchr(q, '\n'); size_t np = ep ? (size_t)(ep - p) : strlen(p), nq = eq ? (size_t)(eq - q) : strlen(q); if (np != nq || memcmp(p, q, np)) { snprintf(la, cap, "%.*s", (int)(np < cap - 1 ? np : cap - 1), p); snprintf(lb, cap, "%.*s", (int)(nq < cap - 1 ? nq : cap - 1), q); return 0; } p = ep ? ep + 1 : p + np; q = eq ? eq + 1 : q + nq; } return 1; }
 
 static void batch_file(const char* path, const char* tag, int codec, int ncols, int64_t ci, int scale) { char ctx[400], la[300], lb[300], key[160];
-        for (int mode = 0; mode < 3; mode++) { carquet_error_t err = CARQUET_ERROR_INIT; static const int bss[] = {65536, 100, 7}; int bs = bss[(ci + mode) % 3];
+        for (int mode = 0; mode < 3; mode++) { carquet_error_t err = CARQUET_ERROR_INIT; static const int bss[] = {65536, 100, 7}; int bs = bss[(ci + mode) % 3]; if (ci >= 1000) bs = (mode & 1) ? 65536 : 16384;   /* large-page files: few, large batches (thousands of tiny parallel regions would only burn CPU) */
             ropen_t o; if (!rd_open(&o, path, mode, 1, 1, &err)) { v_viol("open-failed", "%s case=%lld mode=%s %s", tag, (long long)ci, IO_NAME[mode], err.message); continue; }
             tx_t ref = {0}; LOG_ON = 0; int saved_delay = DELAY_PM; DELAY_PM = 0; batch_transcript(o.rd, 1, bs, NULL, 0, &ref); DELAY_PM = saved_delay; rd_close(&o);
             static const int ths[] = {2, 3, 4, 8, 16};
@@ -57,11 +57,22 @@ static void batch_file(const char* path, const char* tag, int codec, int ncols, 
                 if (!tx_equal(&ref, &x, la, lb, sizeof la)) { snprintf(key, sizeof key, "parallel:output-differs-from-single-thread:%s", IO_NAME[mode]); v_viol(key, "%s: 1 thread[%s] %d threads[%s]", ctx, la, ths[ti], lb); }
                 if (EV && mode == IO_FREAD) analyse_log(ctx); free(x.p); rd_close(&o); }
             free(ref.p); } }
+/* a table of `ncols` REQUIRED INT64 columns with `rows` incompressible values each, one batch and therefore one page of rows*8 bytes per
+ * column: page transfers of several hundred KiB (implementations treat large reads differently from small ones) */
+static table_t* big_page_table(int ncols, int64_t rows, int codec) {
+    table_t* t = (table_t*)calloc(1, sizeof *t); t->ncols = ncols; t->cols = (tcol_t*)calloc((size_t)ncols, sizeof(tcol_t)); t->nrg = 1; t->rg = (tchunk_t**)calloc(1, sizeof(tchunk_t*)); t->rg_rows = (int64_t*)calloc(1, 8); t->codec = codec; t->page_size = 1 << 23; t->rg_rows[0] = rows; t->rg[0] = (tchunk_t*)calloc((size_t)ncols, sizeof(tchunk_t));
+    for (int c = 0; c < ncols; c++) { tcol_t* col = &t->cols[c]; col->type = CARQUET_PHYSICAL_INT64; col->rep = CARQUET_REPETITION_REQUIRED; snprintf(col->name, sizeof col->name, "big%d", c); tchunk_t* k = &t->rg[0][c]; k->nlevels = rows; k->def = (int16_t*)calloc((size_t)rows + 1, 2); k->rep = (int16_t*)calloc((size_t)rows + 1, 2); k->nvals = rows; k->fixed = (uint8_t*)malloc((size_t)rows * 8 + 8); vrng_bytes(&R, k->fixed, (size_t)rows * 8); k->nbatches = 1; k->batch_rows = (int64_t*)malloc(8); k->batch_rows[0] = rows; }
+    return t; }
+
 static void batch_section(int scale, const char* dir) {
     char path[600]; snprintf(path, sizeof path, "%s/c.parquet", dir); int64_t cases = scale >= 2 ? 40 : 5;
     for (int64_t ci = 0; ci < cases; ci++) { tgen_t gp = {10, ci % 4 == 3 ? 6000 : 700, 0, -1, -1, T_CODECS[ci % 5], (ci % 3 == 0) ? 64 : 1024, 1 + (int)(ci % 3)}; table_t* t = tbl_generate(&R, &gp); if (t->ncols < 2) { tbl_free(t); gp.max_cols = 12; t = tbl_generate(&R, &gp); } twrite_result_t wr; unlink(path);
         if (!tbl_write_path(&R, t, path, &wr) || !wr.all_ok) { v_count("writer_refused"); tbl_free(t); continue; }
         batch_file(path, "carquet-written", t->codec, t->ncols, ci, scale);
+        unlink(path); tbl_free(t); }
+    /* large pages: 5 columns x 40 000 (thorough 70 000) INT64 values = 320 (560) KiB per page, uncompressed and SNAPPY */
+    for (int q = 0; q < 2; q++) { table_t* t = big_page_table(5, scale >= 2 ? 70000 : 40000, q ? CARQUET_COMPRESSION_SNAPPY : CARQUET_COMPRESSION_UNCOMPRESSED); twrite_result_t wr; unlink(path);
+        if (tbl_write_path(&R, t, path, &wr) && wr.all_ok) { batch_file(path, "carquet-written-large-pages", t->codec, t->ncols, 1000 + q, 1); v_count("files_with_pages_over_256KiB"); } else v_count("writer_refused");
         unlink(path); tbl_free(t); }
     v_sample("batch: %lld files (2..12 columns, several pages per chunk, 5 codecs) x {fread,mmap,buffer} x threads {2,3,4,8,16} x repetitions, each compared line by line with the 1-thread transcript of the same file/mode/batch size", (long long)cases);
 }
